@@ -7,6 +7,7 @@ NAME = 'LEX'
 SRC = '/repo/src/bloch/compiler/lexer/lexer.cpp'
 AST_FILTER = 'Lexer'
 SHIM = 'lex.h'
+NAMESPACE = 'bloch::compiler'
 FUNCS = ['peek', 'peekNext', 'advance', 'match', 'skipComment', 'skipWhitespace', 'reportError', 'makeToken',
          'scanNumber', 'scanIdentifierOrKeyword', 'scanString', 'scanChar', 'scanToken', 'tokenize']
 THROWING = {'reportError', 'scanNumber', 'scanString', 'scanChar', 'scanToken', 'tokenize', 'scanIdentifierOrKeyword'}
